@@ -854,3 +854,58 @@ mut("C03", "despawn_keeps_mapping", "apply_despawn despawns without removing the
         .and_then(|entity| world.get_entity_mut(entity).ok())"""))
 mut("C03", "no_record_for_empty_new_entity", "new entities without components get no change record", ["record-for-every-new-entity"],
     ("src/server.rs", "                if new_entity && !updates.changed_entity_added() {", "                if new_entity && !updates.changed_entity_added() && replicated_archetype.components.len() > 1000 {"))
+
+# ------------------------------------------------------------------ C01
+mut("C01", "reintroduce_d14_overwrite_removals", "removal buffer overwrites earlier frames' removals", ["RemovalBuffer.removals-merges"],
+    ("src/server/removal_buffer.rs", """        let mut removed_ids = self
+            .removals
+            .remove(&entity)
+            .unwrap_or_else(|| self.ids_buffer.pop().unwrap_or_default());""", """        let mut removed_ids = self.ids_buffer.pop().unwrap_or_default();"""))
+mut("C01", "baseline_is_last_run", "mutations are detected against the system's last run instead of the client's baseline", ["mutation-iff-changed-since-clients-baseline"],
+    ("src/server.rs", "                        if ticks.is_changed(tick, change_tick.this_run()) && send_mutations {", "                        let _ = tick;\n                        if ticks.is_changed(change_tick.last_run(), change_tick.this_run()) && send_mutations {"))
+mut("C01", "baseline_of_other_entity", "baseline looked up for the archetype's first entity", ["mutation-iff-changed"],
+    ("src/server.rs", "                        .mutation_tick(entity.id())", "                        .mutation_tick(Entity::PLACEHOLDER)"))
+mut("C01", "send_rate_ignored", "mutations ignore the send rate", ["send-rate-gate"],
+    ("src/server.rs", "if ticks.is_changed(tick, change_tick.this_run()) && send_mutations {", "if ticks.is_changed(tick, change_tick.this_run()) {"))
+mut("C01", "registered_tick_is_last_run", "in-flight mutate messages are registered with last_run", ["registered-tick-is-this_run"],
+    ("src/server.rs", "                change_tick.this_run(),\n                time.elapsed(),", "                change_tick.last_run(),\n                time.elapsed(),"))
+mut("C01", "mutations_applied_without_waiting", "buffered mutate messages are applied regardless of the update tick", ["applied-only-when-update-tick-reached"],
+    ("src/client.rs", "        if mutate.update_tick > *update_tick {\n            return true;\n        }\n", ""))
+mut("C01", "waiting_mutations_dropped", "mutate messages that have to wait are dropped", ["kept-while-waiting"],
+    ("src/client.rs", "        if mutate.update_tick > *update_tick {\n            return true;\n        }", "        if mutate.update_tick > *update_tick {\n            return false;\n        }"))
+mut("C01", "update_tick_read_before_updates", "the update tick is sampled before this frame's update messages are applied", ["update-tick-read-after-updates"],
+    ("src/client.rs", """    for mut message in client.receive(ServerChannel::Updates) {
+        if let Err(e) = apply_update_message(world, params, &mut message) {
+            error!("unable to apply update message: {e}");
+        }
+    }
+""", """    let update_tick = *world.resource::<ServerUpdateTick>();
+    for mut message in client.receive(ServerChannel::Updates) {
+        if let Err(e) = apply_update_message(world, params, &mut message) {
+            error!("unable to apply update message: {e}");
+        }
+    }
+"""),
+    ("src/client.rs", "    // (unless user requested history via marker).\n    let update_tick = *world.resource::<ServerUpdateTick>();\n", "    // (unless user requested history via marker).\n"))
+mut("C01", "removals_cleared_before_collect_changes", "removal buffer cleared before collect_changes has read it", ["removals-cleared-after-last-reader"],
+    ("src/server.rs", """    collect_removals(&mut serialized, &mut clients, &removal_buffer)?;
+    collect_changes(""", """    collect_removals(&mut serialized, &mut clients, &removal_buffer)?;
+    removal_buffer.clear();
+    collect_changes("""),
+    ("src/server.rs", "        **server_tick,\n    )?;\n    removal_buffer.clear();\n", "        **server_tick,\n    )?;\n"))
+mut("C01", "despawns_not_drained", "buffered despawns are iterated without draining", ["drains-despawn-buffer"],
+    ("src/server.rs", "    for entity in despawn_buffer.drain(..) {", "    for entity in despawn_buffer.iter().copied() {"))
+mut("C01", "removals_buffered_only_on_tick", "removals are buffered only in frames with a tick", ["buffer_removals/every-frame"],
+    ("src/server.rs", """                        buffer_removals,
+                        send_replication.run_if(resource_changed::<ServerTick>),
+                    )
+                        .chain()""", """                        buffer_removals.run_if(resource_changed::<ServerTick>),
+                        send_replication.run_if(resource_changed::<ServerTick>),
+                    )
+                        .chain()"""))
+mut("C01", "updates_unordered", "update messages travel over the unordered reliable channel", ["ServerChannel::Updates/reliable-ordered"],
+    ("src/shared/backend/channels.rs", "            ServerChannel::Updates => Channel::Ordered,", "            ServerChannel::Updates => Channel::Unordered,"))
+mut("C01", "channel_table_swapped", "default channel table lists Mutations before Updates", ["ids-match-table"],
+    ("src/shared/backend/channels.rs", """                ServerChannel::Updates.into(),
+                ServerChannel::Mutations.into(),""", """                ServerChannel::Mutations.into(),
+                ServerChannel::Updates.into(),"""))
